@@ -232,11 +232,15 @@ def corpus(art):
         entry = os.path.join(build.repo(), name, "src", "lib.rs")
         for b in ("c", "cpp", "js"):
             od = os.path.join(work, name + "-" + b)
-            r = tool.run_backend(art, b, entry, od, config=["js.abi=spec"] if b == "js" else [], cwd=os.path.join(build.repo(), name))
+            cf = os.path.join(build.repo(), name, "config.toml")
+            r = tool.run_backend(art, b, entry, od, config=["js.abi=spec"] if b == "js" else [], cwd=os.path.join(build.repo(), name),
+                                 config_file=cf if os.path.exists(cf) else None)
             if r.panicked:
                 out.append(("corpus|%s|%s|panic" % (name, b), r.stderr[-600:]))
                 continue
             if not r.ok:
+                # the repository's own bridges are accepted by these backends (with their own config.toml)
+                out.append(("corpus|%s|%s|not-accepted" % (name, b), r.stderr[-600:]))
                 continue
             if b == "c":
                 for h in sorted(f for f in os.listdir(od) if f.endswith(".h")):
